@@ -17,6 +17,7 @@ from vlib import gen
 from props import factor_common as fc
 
 from props import c03_qs64 as q64
+from props import c03_squfof as sq
 
 # qsieve64::qsieve called DIRECTLY on inputs factor() never passes (even n, tiny n with x = n, n = k): outside C03 (the
 # property is about the factoring entry point); model and code are still compared (K), the oracle accepts the three
@@ -25,9 +26,9 @@ q64.ACCEPT_UNGUARDED = True
 
 PID = "C03"
 GEN = ["primality"]
-LEAN = ["Ymq.Props.C03"] + q64.LEAN
+LEAN = ["Ymq.Props.C03"] + q64.LEAN + sq.LEAN
 AUDIT = "Ymq.Audit.C03"
-THEOREMS = ['Ymq.C03.factor_total', 'Ymq.C03.factor_total_of_input', 'Ymq.C03.factorImpl_total'] + q64.THEOREMS
+THEOREMS = ['Ymq.C03.factor_total', 'Ymq.C03.factor_total_of_input', 'Ymq.C03.factorImpl_total'] + q64.THEOREMS + sq.THEOREMS
 PROFILES = ["release", "chk"]
 TIMEOUT = 60.0
 RULE = ("first, in both tiers, composites / primes / prime squares of exactly 191..193, 255..257, 319..321, 383..385, 447..449 bits (ZmodN of 3..8 words) through ecm and auto; then "
@@ -154,6 +155,7 @@ def cases(tier, rng, extended=False):
     seen = set()
     yield from cli_cases(tier, rng)
     yield from q64.cases(tier, gen_fork(rng, "C03-qs64"), extended)
+    yield from sq.cases(tier, gen_fork(rng, "C03-squfof"), extended)
 
     def emit(n, algs=None, tag="", timeout=None):
         for alg in (algs or selectors_for(n)):
@@ -239,6 +241,8 @@ def cases(tier, rng, extended=False):
 def oracle(case, ans):
     if case.op in q64.OPS:
         return q64.oracle(case, ans)
+    if case.op in sq.OPS:
+        return sq.oracle(case, ans)
     if case.op in ("cli", "cli_build"):
         return cli_oracle(case, ans)
     kind = fc.parse_answer(ans)[0]
@@ -250,7 +254,7 @@ def oracle(case, ans):
 
 
 def finding_key(case, ans, profile):
-    if case.op in q64.OPS:
+    if case.op in q64.OPS or case.op in sq.OPS:
         return None
     if case.op in ("cli", "cli_build"):
         return None
@@ -265,6 +269,8 @@ def followup(case, ans):
     # replay also crashing runs: tells whether the model (lib.rs control flow) predicts the panic
     if case.op in q64.OPS:
         return q64.followup(case, ans)
+    if case.op in sq.OPS:
+        return None
     if case.op in ("cli", "cli_build"):
         return None
     kind, fs, trace, md = fc.parse_answer(ans)
@@ -279,6 +285,8 @@ def followup(case, ans):
 def klass(case, ans):
     if case.op in q64.OPS:
         return q64.klass(case, ans)
+    if case.op in sq.OPS:
+        return sq.klass(case, ans)
     if case.op in ("cli", "cli_build"):
         return f"{case.tag}/{case.args[0]}/{ans.split(' err=')[-1] if ' err=' in ans else ans}"
     return f"{case.args[1]}/{case.tag}/{fc.parse_answer(ans)[0]}"
@@ -287,6 +295,8 @@ def klass(case, ans):
 def nontrivial(case, ans):
     if case.op in q64.OPS:
         return q64.nontrivial(case, ans)
+    if case.op in sq.OPS:
+        return sq.nontrivial(case, ans)
     if case.op in ("cli", "cli_build"):
         return case.op == "cli"
     return int(case.args[0]) > 3
@@ -311,6 +321,7 @@ def corpus_case(line):
 
 
 # ---- qsieve64 inside the model (props/c03_qs64.py)
-MODELLED = list(MODELLED) + list(q64.MODELLED)
-UNMODELLED = list(UNMODELLED) + list(q64.UNMODELLED)
-RULE = RULE + " || " + q64.RULE
+MODELLED = list(MODELLED) + list(q64.MODELLED) + list(sq.MODELLED)
+UNMODELLED = list(UNMODELLED) + list(q64.UNMODELLED) + list(sq.UNMODELLED)
+RULE = RULE + " || " + q64.RULE + " || " + sq.RULE
+HYPOTHESES = list(HYPOTHESES) + list(sq.HYPOTHESES)
